@@ -96,6 +96,7 @@ func vCallback(cd ChunkData) error {
 
 func vReset() {
 	vOutLen, vNrCalls, vFailCallbackAt, vCbFailed = 0, 0, -1, false
+	vOut = [64]byte{} // natively the globals survive from one replay vector to the next
 }
 
 // vBuildStream builds a well-formed stream with the given box sizes; box types and payload are symbolic.
